@@ -11,13 +11,33 @@ AST based, statement by statement.  Translated (each into one Lean `do` block in
   broadcast)                                   -> `init`
 * `AtomGrid.from_pruned`                       -> `from_pruned`
 
+Round 3 (statement by statement as well):
+
+* `AtomGrid.get_shell_grid`                    -> `get_shell_grid` (index guard, `AngularGrid(degree=…)`, the
+  rotation block with its seed expression and `pts.dot(rot_mt)`, the two scalings, the `r_sq` block, the two setters)
+* `AtomGrid._generate_atomic_grid`             -> `generate_atomic_grid_loop` (the body of
+  `for i, deg_i in enumerate(degrees)` as a function of the loop-carried variables `all_points`, `all_weights`,
+  `indices`, `actual_degrees`) and `generate_atomic_grid` (length guard, initialisations, `pyForEnumerate` over that
+  body, `np.vstack` / `np.hstack`, the returned tuple)
+* `AtomGrid.from_preset`                       -> `from_preset` (default radial grid from
+  `_DEFAULT_POWER_RTRANSFORM_PARAMS` with the angstrom -> bohr arithmetic, centre default, `_input_type_check`, the
+  table reads `data[f"{atnum}_rad"]` / `data[f"{atnum}_npt"]`, the `if / elif / else` chain on `preset` / `atnum`
+  with the shell-count comprehension or the sector lookup, and the constructor calls)
+* the default value of every parameter of the translated functions -> `<function>_default_<parameter>`
+* `warnings.warn(<message>, RuntimeWarning, stacklevel=2)` is the only accepted shape of a warning (it is dropped)
+
 Typing context (Python has none; this is what the translator assumes and the correspondence
 exercises): see `SIGS` — radial arrays are 1-D float arrays, degree/size sequences are lists or
 arrays of non-negative integers (`SeqArg` also knows `None` and "anything else"), `rotate` is a
 `RotArg` (int / NumPy integer / bool / other), `method` is one of the four lower-case method names
 and is carried as the per-method environment `env` (a `method=method` or `method.lower()` argument
 is `env`).  Given components (hand model, C12 / assembly loop): `convert_angular_sizes_to_degrees`,
-`_get_degree_and_size(...)[0]`, `_generate_atomic_grid` + attribute assignments.
+`_get_degree_and_size(...)[0]`, `_generate_atomic_grid` + attribute assignments (inside `__init__`; the static method
+itself is translated separately and proved equal to that component), `AngularGrid(degree=d, method=m)` (`angularGrid`),
+`Rotation.random(random_state=s).as_matrix()` (`rRandomMatrix`), and for `from_preset` the `PresetWorld`: the module
+constant `_DEFAULT_POWER_RTRANSFORM_PARAMS`, `scipy.constants.angstrom`, `scipy.constants.value("atomic unit of
+length")`, `PowerRTransform(rmin, rmax).transform_1d_grid(UniformInteger(npt))`; the `.npz` tables are those of
+`Gen/Presets.lean`.
 
 The vocabulary is deliberately small (see `Tr.ex`, `Tr.stmt`); everything else raises
 `Untranslatable`, which the check treats like a proof obligation that no longer holds.
@@ -41,7 +61,19 @@ LEAN_TYPE = {
     "K": "K", "VecK": "List K", "VecNat": "List Nat", "OptVecNat": "Option (List Nat)", "OptVecK": "Option (List K)",
     "SeqArg": "SeqArg", "RotArg": "RotArg", "RGrid": "RGrid K", "Nat": "Nat", "Int": "Int", "Bool": "Bool",
     "NpArrNat": "NpArr Nat", "Grid": "Grid K", "Unit": "Unit",
+    # round 3
+    "Pts": "List (V3 K)", "M3": "M3 K", "AngGrid": "AngGrid K", "RNode": "K × K", "ListRNode": "List (K × K)",
+    "SelfGrid": "Grid K", "ListPts": "List (List (V3 K))", "ListVecK": "List (List K)", "Preset": "Preset",
+    "OptRGrid": "Option (RGrid K)", "PruneFile": "List Entry", "RadArr": "RadArr K", "Triple": "K × K × Nat",
+    "UniformInteger": "UniformIntegerGrid", "String": "String",
 }
+
+
+def lean_type(t):
+    if t.startswith("Tup:"):
+        return " × ".join(lean_type(x) for x in t[4:].split(","))
+    return LEAN_TYPE[t]
+
 
 # python name -> (lean name, kind, [(param, type)], return type, uses env)
 SIGS = {
@@ -57,8 +89,25 @@ SIGS = {
     "from_pruned": ("from_pruned", "classmethod",
                     [("rgrid", "RGrid"), ("radius", "K"), ("r_sectors", "VecK"), ("d_sectors", "OptVecNat"), ("*", None),
                      ("s_sectors", "OptVecNat"), ("center", "OptVecK"), ("rotate", "RotArg"), ("method", "Method")], "Grid"),
+    # round 3
+    "get_shell_grid": ("get_shell_grid", "method", [("index", "Int"), ("r_sq", "Bool")], "AngGrid"),
+    "_generate_atomic_grid": ("generate_atomic_grid", "staticmethod",
+                              [("rgrid", "RGrid"), ("degrees", "VecNat"), ("rotate", "RotArg"), ("method", "Method")],
+                              "Tup:Pts,VecK,VecNat,VecNat"),
+    "from_preset": ("from_preset", "classmethod",
+                    [("atnum", "Nat"), ("preset", "Preset"), ("rgrid", "OptRGrid"), ("center", "OptVecK"), ("rotate", "RotArg"),
+                     ("method", "Method")], "Grid"),
 }
-ORDER = ["_find_degrees_for_radial_points", "_generate_degree_from_radius", "_input_type_check", "__init__", "from_pruned"]
+ORDER = ["_find_degrees_for_radial_points", "_generate_degree_from_radius", "_input_type_check", "__init__", "from_pruned",
+         "get_shell_grid", "_generate_atomic_grid", "from_preset"]
+# element types of the lists a function starts empty (Python has no annotation for them)
+LOCALS = {"_generate_atomic_grid": {"all_points": "ListPts", "all_weights": "ListVecK", "actual_degrees": "VecNat"}}
+# functions that read the world of `from_preset` (module constants, SciPy constants, the default radial transform)
+USES_WORLD = {"from_preset"}
+# properties of AtomGrid read through `self.<name>` -> (attribute they must return, field of the model's Grid, type)
+SELF_PROPS = {"degrees": ("self._degs", "degrees", "VecNat"), "rotate": ("self._rot", "rotate", "Nat"),
+              "rgrid": ("self._rgrid", "rgrid", "ListRNode"), "method": ("self._method", None, "Method")}
+ELEM = {"ListPts": "Pts", "ListVecK": "VecK", "VecNat": "Nat"}
 ERRS = {"ValueError": "Err.valueError", "TypeError": "Err.typeError", "IndexError": "Err.indexError"}
 # attribute assignments of __init__ after the call of _generate_atomic_grid (part of the hand-model component)
 INIT_TAIL = {"self._size = self._weights.size", "self._basis = None", "self._kdtree = None", "self._method = method.lower()"}
@@ -75,13 +124,23 @@ def _unparse1(node):
 class Tr:
     """Translation of one function body."""
 
-    def __init__(self, pyname, fn, defaults):
+    def __init__(self, pyname, fn, defaults, props=frozenset()):
         self.pyname, self.fn = pyname, fn
         self.lean, self.kind, self.params, self.ret = SIGS[pyname]
         self.env = {n: (n, t) for n, t in self.params if t is not None}
-        self.uses_env = any(t == "Method" for _, t in self.params if t)
+        self.has_self = self.kind == "method" and pyname != "__init__"
+        if self.has_self:
+            self.env["self"] = ("self", "SelfGrid")
+        self.uses_env = any(t == "Method" for _, t in self.params if t) or self.has_self
+        self.uses_world = pyname in USES_WORLD
         self.defaults = defaults  # all functions: pyname -> {param: ast default}
+        self.props = props        # properties of AtomGrid whose body is `return self._<attr>` as SELF_PROPS expects
+        self.locals = LOCALS.get(pyname, {})
         self.mut = set()
+        self.mut_declared = set()
+        self.scopes = [set()]     # names bound by `let` in the open scopes (innermost last)
+        self.aux = []             # auxiliary definitions (loop bodies), emitted before the function
+        self.body_stmts = fn.body
         self.done = False
 
     # ---- helpers -------------------------------------------------------------
@@ -107,11 +166,21 @@ class Tr:
             return f"(← {term}.asList)"
         if t == "OptVecNat" and want == "VecNat":
             return f"(← pyNotNone {term})"
+        if t == "OptRGrid" and want == "RGrid":
+            return f"(← pyNotNone {term})"
+        if t == "RGrid" and want == "OptRGrid":
+            return f"(some {_atom(term)})"
+        if t == "RadArr" and want == "VecK":
+            return f"{_atom(term)}.values"
+        if t == "Nat" and want == "K":
+            return f"(({term} : Nat) : K)"
         _fail(node, f"type {t} where {want} is expected")
 
     def is_method_arg(self, e):
         """`method` or `method.lower()`: the per-method environment."""
         if isinstance(e, ast.Name) and e.id == "method":
+            return True
+        if self.has_self and ast.unparse(e) == "self.method" and "method" in self.props:
             return True
         return (isinstance(e, ast.Call) and isinstance(e.func, ast.Attribute) and e.func.attr == "lower" and not e.args
                 and not e.keywords and isinstance(e.func.value, ast.Name) and e.func.value.id == "method")
@@ -119,6 +188,16 @@ class Tr:
     def need_env(self, node):
         if not self.uses_env:
             _fail(node, "needs the angular method but the function has no `method` parameter")
+
+    def need_world(self, node):
+        if not self.uses_world:
+            _fail(node, "reads a module / SciPy constant but the function is not declared to use the preset world")
+
+    def as_int(self, term, t, node):
+        """operand of integer arithmetic / a seed: RotArg counts with its integer value"""
+        if t == "RotArg":
+            return f"{_atom(term)}.val"
+        return self.coerce(term, t, "Int", node)
 
     # ---- expressions -> (lean term, type) ---------------------------------------
     def ex(self, e):
@@ -142,14 +221,25 @@ class Tr:
             src = ast.unparse(e)
             if src in self.env:  # self._rgrid, self._rot, self._center after their assignment
                 return self.env[src]
+            if src == "scipy.constants.angstrom":
+                self.need_world(e)
+                return "world.angstrom", "K"
             base, t = self.ex(e.value)
+            if t == "SelfGrid" and e.attr in SELF_PROPS and e.attr in self.props and SELF_PROPS[e.attr][1] is not None:
+                return f"self.{SELF_PROPS[e.attr][1]}", SELF_PROPS[e.attr][2]
+            if t == "AngGrid" and e.attr in ("points", "weights", "degree"):
+                return f"{_atom(base)}.{e.attr}", {"points": "Pts", "weights": "VecK", "degree": "Nat"}[e.attr]
+            if t == "RNode" and e.attr in ("points", "weights"):  # a one-point OneDGrid: its single node / weight
+                return f"{_atom(base)}.{1 if e.attr == 'points' else 2}", "K"
+            if t == "OptRGrid":
+                base, t = self.coerce(base, t, "RGrid", e), "RGrid"
             if t == "RGrid":
                 if e.attr in ("points", "weights"):
-                    return f"{base}.{e.attr}", "VecK"
+                    return f"{_atom(base)}.{e.attr}", "VecK"
                 if e.attr == "size":
-                    return f"{base}.size", "Nat"
+                    return f"{_atom(base)}.size", "Nat"
                 if e.attr == "domain":
-                    return f"{base}.domain", "OptPairK"
+                    return f"{_atom(base)}.domain", "OptPairK"
             if t == "VecK" and e.attr == "shape":
                 return base, "ShapeOfVecK"
             _fail(e, "unsupported attribute")
@@ -168,6 +258,13 @@ class Tr:
             return f"!({t})", "Bool"
         if isinstance(e, ast.IfExp):
             return self.ifexp(e)
+        if isinstance(e, ast.ListComp):
+            return self.listcomp(e)
+        if isinstance(e, ast.Tuple):
+            parts = [self.ex(x) for x in e.elts]
+            if any(t == "IntLit" for _, t in parts):
+                _fail(e, "literal inside a tuple")
+            return "(" + ", ".join(t for t, _ in parts) + ")", "Tup:" + ",".join(t for _, t in parts)
         if isinstance(e, ast.Call):
             act = self.action(e)
             if act is not None:
@@ -187,20 +284,54 @@ class Tr:
         if isinstance(e.value, ast.Call) and ast.unparse(e.value.func) == "AngularGrid._get_degree_and_size":
             act = self.action(e)
             return f"(← {act[0]})", act[1]
+        # _DEFAULT_POWER_RTRANSFORM_PARAMS[int(atnum)]
+        if isinstance(e.value, ast.Name) and e.value.id == "_DEFAULT_POWER_RTRANSFORM_PARAMS" and e.value.id not in self.env:
+            self.need_world(e)
+            k, tk = self.pure(e.slice)
+            return f"(← pyDictGet world.defaultParams {_atom(self.coerce(k, tk, 'Nat', e))})", "Triple"
         base, t = self.ex(e.value)
+        if t == "PruneFile":  # data[f"{atnum}_rad"], data[f"{atnum}_npt"]
+            sl = e.slice
+            if not (isinstance(sl, ast.JoinedStr) and len(sl.values) == 2 and isinstance(sl.values[0], ast.FormattedValue)
+                    and sl.values[0].conversion == -1 and sl.values[0].format_spec is None and isinstance(sl.values[1], ast.Constant)
+                    and sl.values[1].value in ("_rad", "_npt")):
+                _fail(e, 'key of the table file other than f"{atnum}_rad" / f"{atnum}_npt"')
+            k, tk = self.pure(sl.values[0].value)
+            k = _atom(self.coerce(k, tk, "Nat", e))
+            if sl.values[1].value == "_rad":
+                self.need_world(e)
+                return f"(← pruneRad world.toK {_atom(base)} {k})", "RadArr"
+            return f"(← pruneNpt {_atom(base)} {k})", "VecNat"
         if t == "VecNat":
             idx, ti = self.ex(e.slice)
             if ti == "VecNat":
                 return f"(← npTake {base} {idx})", "VecNat"
-            _fail(e, "integer array indexed by something else than an integer array")
+            if ti in ("Nat", "IntLit"):
+                return f"(← npGetItem {_atom(base)} {_atom(idx)})", "Nat"
+            if ti == "Int":
+                return f"(← pyItem {_atom(base)} {_atom(idx)})", "Nat"
+            _fail(e, "integer array indexed by something else than an integer or an integer array")
+        if t in ("ListRNode", "RGrid", "OptRGrid"):  # rgrid[i]: the one-point grid (node, weight)
+            idx, ti = self.ex(e.slice)
+            if ti not in ("Nat", "Int"):
+                _fail(e, "radial grid indexed by something else than an integer")
+            if t != "ListRNode":
+                base = f"{_atom(self.coerce(base, t, 'RGrid', e))}.nodes"
+            return f"(← pyItem {_atom(base)} {_atom(self.coerce(idx, ti, 'Int', e))})", "RNode"
         if t == "PairK" and isinstance(e.slice, ast.Constant) and e.slice.value in (0, 1):
             return f"{base}.{e.slice.value + 1}", "K"
         _fail(e, "unsupported subscript")
 
     def binop(self, e):
-        sym = {ast.Add: "+", ast.Sub: "-", ast.Mult: "*", ast.Pow: "^", ast.Div: "/"}.get(type(e.op))
+        sym = {ast.Add: "+", ast.Sub: "-", ast.Mult: "*", ast.Pow: "^", ast.Div: "/", ast.MatMult: "@"}.get(type(e.op))
         if sym is None:
             _fail(e, "unsupported operator")
+        if sym == "@":
+            l, tl = self.ex(e.left)
+            r, tr = self.ex(e.right)
+            if (tl, tr) == ("Pts", "M3"):
+                return f"npMatMul {_atom(l)} {_atom(r)}", "Pts"
+            _fail(e, f"matrix product of {tl} and {tr}")
         # np.ones(n, dtype=int) * xs
         if sym == "*" and isinstance(e.left, ast.Call) and ast.unparse(e.left.func) == "np.ones":
             c = e.left
@@ -213,7 +344,15 @@ class Tr:
         r, tr = self.ex(e.right)
         if tl == "VecK" and tr == "K" and sym == "*":
             return f"npMulScalar {_atom(l)} {_atom(r)}", "VecK"
+        if tl == "Pts" and tr == "K" and sym == "*":
+            return f"npMulRows {_atom(l)} {_atom(r)}", "Pts"
+        if tl == "K" and tr == "IntLit" and sym == "^":
+            return f"npow {_atom(l)} {r}", "K"
         ints = ("IntLit", "Nat", "Int")
+        if "RotArg" in (tl, tr) and {tl, tr} <= set(ints) | {"RotArg"} and sym in "+-*":
+            return f"{self.as_int(l, tl, e)} {sym} {self.as_int(r, tr, e)}", "Int"
+        if tl in ("IntLit", "Nat") and tr in ("IntLit", "Nat") and "Nat" in (tl, tr) and sym in "+*":
+            return f"{l} {sym} {r}", "Nat"
         if tl in ints and tr in ints:
             if sym == "/":
                 _fail(e, "true division of integers")
@@ -240,7 +379,33 @@ class Tr:
                     return f"{x}.isNotNone" if neg else f"!({x}.isNotNone)", "Bool"
             if isinstance(c, ast.Constant) and c.value is False and t == "RotArg":
                 return f"{x}.isNotFalse" if neg else f"!({x}.isNotFalse)", "Bool"
+            if isinstance(c, ast.Constant) and c.value is None and t == "OptRGrid":
+                return f"{x}.isSome" if neg else f"{x}.isNone", "Bool"
+            if isinstance(c, ast.Constant) and c.value is True and t == "Bool":
+                return f"!({x})" if neg else x, "Bool"
             _fail(e, "unsupported identity test")
+        # membership tests
+        if len(ops) == 1 and isinstance(ops[0], (ast.In, ast.NotIn)):
+            neg = isinstance(ops[0], ast.NotIn)
+            x, t = self.pure(terms[0])
+            c = terms[1]
+            if isinstance(c, ast.Name) and c.id == "_DEFAULT_POWER_RTRANSFORM_PARAMS" and c.id not in self.env and t == "Nat":
+                self.need_world(e)
+                r = f"pyDictContains world.defaultParams {_atom(x)}"
+            elif t == "Preset" and isinstance(c, (ast.List, ast.Tuple)) and c.elts and all(
+                    isinstance(v, ast.Constant) and isinstance(v.value, str) for v in c.elts):
+                r = "[" + ", ".join(_preset(v) for v in c.elts) + f"].contains {x}"
+            else:
+                _fail(e, "unsupported membership test")
+            return (f"!({r})" if neg else r), "Bool"
+        if len(ops) == 1 and isinstance(ops[0], (ast.Eq, ast.NotEq)):
+            c = terms[1]
+            if isinstance(c, ast.Constant) and isinstance(c.value, str):
+                x, t = self.pure(terms[0])
+                if t != "Preset":
+                    _fail(e, "comparison with a string of something else than the preset name")
+                r = f"({x} == {_preset(c)})"
+                return (f"!{r}" if isinstance(ops[0], ast.NotEq) else r), "Bool"
         if any(type(o) not in CMP for o in ops):
             _fail(e, "unsupported comparison")
         # center.shape != (3,)
@@ -342,8 +507,10 @@ class Tr:
             _fail(e, "unsupported isinstance test")
         if f == "len" and len(e.args) == 1 and not kw:
             x, t = self.ex(e.args[0])
-            if t in ("VecK", "VecNat"):
-                return f"{x}.length", "Nat"
+            if t in ("VecK", "VecNat", "Pts"):
+                return f"{_atom(x)}.length", "Nat"
+            if t == "RadArr":
+                return f"{_atom(x)}.len", "Nat"
             if t == "NpArrNat":
                 return f"(← {x}.len)", "Nat"
             if t == "SeqArg":
@@ -366,6 +533,84 @@ class Tr:
         if f == "np.zeros" and len(e.args) == 1 and {k: ast.unparse(v) for k, v in kw.items()} == {"dtype": "float"}:
             n, t = self.ex(e.args[0])
             return f"npZeros {self.coerce(n, t, 'Nat', e)}", "VecK"
+        if f == "np.zeros" and len(e.args) == 1 and {k: ast.unparse(v) for k, v in kw.items()} == {"dtype": "int"}:
+            n, t = self.ex(e.args[0])
+            return f"npZerosInt {_atom(self.coerce(n, t, 'Nat', e))}", "VecNat"
+        if f in ("np.vstack", "np.hstack") and len(e.args) == 1 and not kw:
+            x, t = self.pure(e.args[0])
+            if (f, t) == ("np.vstack", "ListPts"):
+                return f"(← npVstack {_atom(x)})", "Pts"
+            if (f, t) == ("np.hstack", "ListVecK"):
+                return f"(← npHstack {_atom(x)})", "VecK"
+            _fail(e, f"{f} of an unsupported value")
+        if f == "int" and len(e.args) == 1 and not kw:
+            x, t = self.ex(e.args[0])
+            if t == "Nat":
+                return x, "Nat"
+            _fail(e, "int() of something else than a natural number")
+        if isinstance(e.func, ast.Attribute) and e.func.attr == "copy" and not e.args and not kw:
+            x, t = self.ex(e.func.value)
+            if t in ("Pts", "VecK"):  # a fresh array with the same entries
+                return x, t
+            _fail(e, ".copy() of an unsupported value")
+        if isinstance(e.func, ast.Attribute) and e.func.attr == "dot" and len(e.args) == 1 and not kw:
+            x, t = self.ex(e.func.value)
+            m, tm = self.ex(e.args[0])
+            if (t, tm) == ("Pts", "M3"):
+                return f"npMatMul {_atom(x)} {_atom(m)}", "Pts"
+            _fail(e, ".dot of unsupported values")
+        # R.random(random_state=<seed>).as_matrix()
+        if (isinstance(e.func, ast.Attribute) and e.func.attr == "as_matrix" and not e.args and not kw
+                and isinstance(e.func.value, ast.Call) and ast.unparse(e.func.value.func) == "R.random"):
+            c = e.func.value
+            if c.args or [k.arg for k in c.keywords] != ["random_state"]:
+                _fail(e, "`R.random(random_state=…).as_matrix()` expected")
+            self.need_env(e)
+            sd, ts = self.pure(c.keywords[0].value)
+            return f"(← rRandomMatrix env {_atom(self.as_int(sd, ts, e))})", "M3"
+        if f == "AngularGrid":
+            if e.args or set(kw) != {"degree", "method"} or not self.is_method_arg(kw["method"]):
+                _fail(e, "`AngularGrid(degree=…, method=<the method>)` expected")
+            self.need_env(e)
+            d, td = self.pure(kw["degree"])
+            return f"(← angularGrid env {_atom(self.coerce(d, td, 'Nat', e))})", "AngGrid"
+        if f == "scipy.constants.value" and len(e.args) == 1 and not kw:
+            if not (isinstance(e.args[0], ast.Constant) and e.args[0].value == "atomic unit of length"):
+                _fail(e, "SciPy constant other than 'atomic unit of length'")
+            self.need_world(e)
+            return "world.atomicUnitOfLength", "K"
+        if f == "UniformInteger" and len(e.args) == 1 and not kw:
+            n, t = self.pure(e.args[0])
+            return f"UniformIntegerGrid.mk {_atom(self.coerce(n, t, 'Nat', e))}", "UniformInteger"
+        # PowerRTransform(rmin, rmax).transform_1d_grid(onedgrid)
+        if (isinstance(e.func, ast.Attribute) and e.func.attr == "transform_1d_grid" and len(e.args) == 1 and not kw
+                and isinstance(e.func.value, ast.Call) and ast.unparse(e.func.value.func) == "PowerRTransform"):
+            c = e.func.value
+            if len(c.args) != 2 or c.keywords:
+                _fail(e, "`PowerRTransform(rmin, rmax)` expected")
+            self.need_world(e)
+            a, ta = self.pure(c.args[0])
+            b, tb = self.pure(c.args[1])
+            g, tg = self.pure(e.args[0])
+            if (ta, tb, tg) != ("K", "K", "UniformInteger"):
+                _fail(e, "argument types of the default radial grid")
+            return f"world.powerTransformGrid {_atom(a)} {_atom(b)} {_atom(g)}", "RGrid"
+        # np.load(files("grid.data.prune_grid").joinpath(f"prune_grid_{preset}.npz"))
+        if f == "np.load" and len(e.args) == 1 and not kw:
+            a = e.args[0]
+            ok = (isinstance(a, ast.Call) and isinstance(a.func, ast.Attribute) and a.func.attr == "joinpath" and len(a.args) == 1
+                  and not a.keywords and ast.unparse(a.func.value) == "files('grid.data.prune_grid')"
+                  and isinstance(a.args[0], ast.JoinedStr) and len(a.args[0].values) == 3
+                  and isinstance(a.args[0].values[0], ast.Constant) and a.args[0].values[0].value == "prune_grid_"
+                  and isinstance(a.args[0].values[1], ast.FormattedValue) and a.args[0].values[1].conversion == -1
+                  and a.args[0].values[1].format_spec is None
+                  and isinstance(a.args[0].values[2], ast.Constant) and a.args[0].values[2].value == ".npz")
+            if not ok:
+                _fail(e, "np.load of something else than the table file of the preset")
+            x, t = self.pure(a.args[0].values[1].value)
+            if t != "Preset":
+                _fail(e, "table file of something else than the preset")
+            return f"npLoadPruneGrid {_atom(x)}", "PruneFile"
         if f == "np.min" and len(e.args) == 1 and not kw:
             x, t = self.ex(e.args[0])
             if t == "VecK":
@@ -383,7 +628,37 @@ class Tr:
             _fail(e, "np.sum of something else than `a[:, None] <cmp> b[None, :]` along axis 1")
         _fail(e, "unsupported call")
 
+    def listcomp2(self, lc):
+        """`[z[i] for i in range(len(x)) for _ in range(y[i])]`"""
+        g1, g2 = lc.generators
+        if any(g.ifs or g.is_async or not isinstance(g.target, ast.Name) for g in (g1, g2)):
+            _fail(lc, "unsupported comprehension")
+        i, j = g1.target.id, g2.target.id
+        if i in self.env or j in self.env or i == j:
+            _fail(lc, "comprehension variable shadows a name")
+        it1 = g1.iter
+        if not (isinstance(it1, ast.Call) and ast.unparse(it1.func) == "range" and len(it1.args) == 1 and not it1.keywords):
+            _fail(lc, "outer iteration is not range(n)")
+        n, tn = self.pure(it1.args[0])
+        it2 = g2.iter
+        if not (isinstance(it2, ast.Call) and ast.unparse(it2.func) == "range" and len(it2.args) == 1 and not it2.keywords
+                and isinstance(it2.args[0], ast.Subscript) and isinstance(it2.args[0].slice, ast.Name) and it2.args[0].slice.id == i):
+            _fail(lc, "inner iteration is not range(y[i])")
+        y, ty = self.pure(it2.args[0].value)
+        if ty != "RadArr":
+            _fail(lc, "inner iteration count is not an entry of the table's `rad`")
+        el = lc.elt
+        if not (isinstance(el, ast.Subscript) and isinstance(el.slice, ast.Name) and el.slice.id == i):
+            _fail(lc, "comprehension element is not z[i]")
+        z, tz = self.pure(el.value)
+        if tz != "VecNat":
+            _fail(lc, "comprehension element is not an entry of an integer array")
+        return (f"(← pyFlatMapM (List.range {_atom(self.coerce(n, tn, 'Nat', lc))}) (fun {i} => pyRangeOfItem {_atom(y)} {i}) "
+                f"(fun {i} _ => npGetItem {_atom(z)} {i}))"), "VecNat"
+
     def listcomp(self, lc):
+        if len(lc.generators) == 2:
+            return self.listcomp2(lc)
         if len(lc.generators) != 1 or lc.generators[0].ifs or lc.generators[0].is_async or not isinstance(lc.generators[0].target, ast.Name):
             _fail(lc, "unsupported comprehension")
         g = lc.generators[0]
@@ -448,10 +723,11 @@ class Tr:
         if f in ("cls", "AtomGrid"):
             target = "__init__"
         elif isinstance(e.func, ast.Attribute) and isinstance(e.func.value, ast.Name) and e.func.value.id in ("cls", "self", "AtomGrid"):
+            if e.func.attr == "_generate_atomic_grid" and self.pyname == "__init__":
+                # together with the attribute assignments that follow: the hand-model component `generateAtomicGrid`
+                return self.generate_call(e, kw)
             if e.func.attr in SIGS and e.func.attr != "__init__":
                 target = e.func.attr
-            elif e.func.attr == "_generate_atomic_grid":
-                return self.generate_call(e, kw)
         if target is None:
             return None
         lean, _, params, ret = SIGS[target]
@@ -486,9 +762,13 @@ class Tr:
         if isinstance(v, ast.Constant) and v.value is None:
             if want == "SeqArg":
                 return "SeqArg.none"
-            if want in ("OptVecNat", "OptVecK"):
+            if want in ("OptVecNat", "OptVecK", "OptRGrid"):
                 return "none"
             _fail(v, f"None for a parameter of type {want}")
+        if isinstance(v, ast.Constant) and isinstance(v.value, bool) and want == "Bool":
+            return "true" if v.value else "false"
+        if isinstance(v, ast.Constant) and isinstance(v.value, str) and want == "Method":
+            return '"' + v.value.replace('"', "") + '"'
         if isinstance(v, ast.List) and want == "SeqArg" and all(isinstance(x, ast.Constant) and isinstance(x.value, int)
                                                                  and not isinstance(x.value, bool) and x.value >= 0 for x in v.elts):
             return "(SeqArg.seq [" + ", ".join(str(x.value) for x in v.elts) + "])"
@@ -512,24 +792,67 @@ class Tr:
         return f"generateAtomicGrid env {rg} {_atom(self.coerce(dg, t2, 'VecNat', e))} {rot} {self.env['self._center'][0]}", "Grid"
 
     # ---- statements ---------------------------------------------------------------
-    def block(self, stmts, ind, top=False):
+    def block(self, stmts, ind, top=False, tail=False):
+        """`top`: the function's own statement list; `tail`: a branch in tail position (it must end the function)"""
         out = []
         for k, s in enumerate(stmts):
             if self.done:
                 if not (top and self.pyname == "__init__" and ast.unparse(s) in INIT_TAIL):
                     _fail(s, "statement after the result was produced")
                 continue
-            out += self.stmt(s, ind, top)
+            last = k == len(stmts) - 1
+            out += self.stmt(s, ind, top, tail=(top or tail) and last and self.ret != "Unit")
+        if tail and not self.done:
+            _fail(stmts[-1], "a branch in tail position does not end in return / raise")
         return out
 
-    def stmt(self, s, ind, top):
+    def scoped(self, stmts, ind, tail=False):
+        """a branch: names first bound inside it are local to it"""
+        self.scopes.append(set())
+        try:
+            return self.block(stmts, ind, tail=tail)
+        finally:
+            for n in self.scopes.pop():
+                self.env.pop(n, None)
+
+    def assign_name(self, name, t, ty, s, pad, ann=None):
+        """`name = <t : ty>` -> the Lean statement"""
+        colon = f" : {lean_type(ann)}" if ann else ""
+        if name in self.env and name in self.mut and name in self.mut_declared:
+            return f"{pad}{name} := {self.coerce(t, ty, self.env[name][1], s)}"
+        if name in self.env and name not in self.scopes[-1] and len(self.scopes) > 1:
+            _fail(s, "assignment inside a branch to a name that was not declared mutable")
+        if ty == "IntLit":
+            _fail(s, "a bare literal is assigned")
+        self.env[name] = (name, ty)
+        self.scopes[-1].add(name)
+        if name in self.mut:
+            self.mut_declared.add(name)
+            return f"{pad}let mut {name}{colon} := {t}"
+        return f"{pad}let {name}{colon} := {t}"
+
+    def stmt(self, s, ind, top, tail=False):
         pad = "  " * ind
         com = f"{pad}-- {_unparse1(s)}"
         if isinstance(s, ast.Expr):
             if isinstance(s.value, ast.Constant) and isinstance(s.value.value, str):
                 return []
             if isinstance(s.value, ast.Call) and ast.unparse(s.value.func) == "warnings.warn":
+                c = s.value
+                if not (len(c.args) == 2 and isinstance(c.args[0], (ast.Constant, ast.JoinedStr)) and ast.unparse(c.args[1]) == "RuntimeWarning"
+                        and [(k.arg, ast.unparse(k.value)) for k in c.keywords] == [("stacklevel", "2")]):
+                    _fail(s, "warning other than `warnings.warn(<message>, RuntimeWarning, stacklevel=2)`")
                 return [f"{pad}-- warnings.warn(...)"]
+            # xs.append(e)
+            c = s.value
+            if (isinstance(c, ast.Call) and isinstance(c.func, ast.Attribute) and c.func.attr == "append" and isinstance(c.func.value, ast.Name)
+                    and len(c.args) == 1 and not c.keywords and c.func.value.id in self.env):
+                name = c.func.value.id
+                cur = self.env[name][1]
+                if cur not in ELEM:
+                    _fail(s, "append to something else than a list")
+                v, tv = self.ex(c.args[0])
+                return [com, self.assign_name(name, f"{name} ++ [{self.coerce(v, tv, ELEM[cur], s)}]", cur, s, pad)]
             act = self.action(s.value) if isinstance(s.value, ast.Call) else None
             if act is None or act[1] != "Unit":
                 _fail(s, "unsupported expression statement")
@@ -537,10 +860,12 @@ class Tr:
         if isinstance(s, ast.Raise):
             if not (isinstance(s.exc, ast.Call) and isinstance(s.exc.func, ast.Name) and s.exc.func.id in ERRS and s.cause is None):
                 _fail(s, "unsupported raise")
+            if tail:
+                self.done = True
             return [f"{pad}throw {ERRS[s.exc.func.id]}"]
         if isinstance(s, ast.Return):
-            if not top or s.value is None:
-                _fail(s, "return inside a branch / without a value")
+            if not tail or s.value is None:
+                _fail(s, "return that is not the last statement of the function / of a final branch, or without a value")
             self.done = True
             if isinstance(s.value, ast.Call):
                 act = self.action(s.value)
@@ -555,81 +880,241 @@ class Tr:
                 _fail(s, "chained assignment")
             tg = s.targets[0]
             if isinstance(tg, ast.Tuple):
-                if not (top and self.pyname == "__init__" and ast.unparse(tg) == "(self._points, self._weights, self._indices, self._degs)"):
+                if top and self.pyname == "__init__" and ast.unparse(tg) == "(self._points, self._weights, self._indices, self._degs)":
+                    act = self.action(s.value)
+                    if act is None or act[1] != "Grid":
+                        _fail(s, "the attributes are not assigned from _generate_atomic_grid")
+                    self.done = True
+                    return [com, f"{pad}{act[0]}"]
+                if not all(isinstance(x, ast.Name) for x in tg.elts):
                     _fail(s, "unsupported tuple assignment")
-                act = self.action(s.value)
-                if act is None or act[1] != "Grid":
-                    _fail(s, "the attributes are not assigned from _generate_atomic_grid")
-                self.done = True
-                return [com, f"{pad}{act[0]}"]
+                names = [x.id for x in tg.elts]
+                if isinstance(s.value, ast.Tuple) and len(s.value.elts) == len(names):
+                    # a, b = e1, e2: one after the other, provided no e_j reads a target assigned before it
+                    for j, v in enumerate(s.value.elts):
+                        used = {n.id for n in ast.walk(v) if isinstance(n, ast.Name)}
+                        if used & set(names[:j]):
+                            _fail(s, "tuple assignment whose right-hand side reads an earlier target")
+                    out = [com]
+                    for n, v in zip(names, s.value.elts):
+                        out.append(self.assign_value(n, v, s, pad))
+                    return out
+                t, ty = self.ex(s.value)
+                if ty == "Triple" and len(names) == 3:
+                    out = [com, f"{pad}let t' := {t}"]
+                    for n, (proj, pt) in zip(names, ((".1", "K"), (".2.1", "K"), (".2.2", "Nat"))):
+                        out.append(self.assign_name(n, f"t'{proj}", pt, s, pad))
+                    return out
+                _fail(s, "unsupported tuple assignment")
             if isinstance(tg, ast.Attribute):
                 key = ast.unparse(tg)
-                if not (isinstance(tg.value, ast.Name) and tg.value.id == "self" and top):
+                if isinstance(tg.value, ast.Name) and tg.value.id in self.env and self.env[tg.value.id][1] == "AngGrid" \
+                        and tg.attr in ("points", "weights"):
+                    # the setter of a local angular grid: the object with that array replaced
+                    v, tv = self.ex(s.value)
+                    want = {"points": "Pts", "weights": "VecK"}[tg.attr]
+                    obj = tg.value.id
+                    return [com, self.assign_name(obj, f"{{ {obj} with {tg.attr} := {self.coerce(v, tv, want, s)} }}", "AngGrid", s, pad)]
+                if not (isinstance(tg.value, ast.Name) and tg.value.id == "self" and top and self.pyname == "__init__"):
                     _fail(s, "unsupported attribute assignment")
                 if not isinstance(s.value, ast.Name):
                     _fail(s, "attribute assigned from something else than a local name")
                 self.env[key] = self.ex(s.value)
                 return [com]
+            if isinstance(tg, ast.Subscript):
+                # a[i] = v on a local integer array
+                if not (isinstance(tg.value, ast.Name) and tg.value.id in self.env and self.env[tg.value.id][1] == "VecNat"):
+                    _fail(s, "unsupported item assignment")
+                name = tg.value.id
+                i, ti = self.ex(tg.slice)
+                v, tv = self.ex(s.value)
+                return [com, self.assign_name(name, f"(← npSetItem {name} {_atom(self.coerce(i, ti, 'Nat', s))} {_atom(self.coerce(v, tv, 'Nat', s))})",
+                                              "VecNat", s, pad)]
             if not isinstance(tg, ast.Name):
                 _fail(s, "unsupported assignment target")
             name = tg.id
             if isinstance(s.value, ast.Constant) and s.value.value is None and name not in self.env:
                 return [com + "   (unused)"]  # `degree = None`
-            t, ty = self.ex(s.value)
-            if name in self.env and (not top or name in self.mut):
-                # re-assignment of a mutable variable: the type must stay
-                cur = self.env[name][1]
-                if name not in self.mut:
-                    _fail(s, "assignment to a name that was not declared mutable")
-                return [com, f"{pad}{name} := {self.coerce(t, ty, cur, s)}"]
-            if not top:
-                _fail(s, "new local variable inside a branch")
-            self.env[name] = (name, ty)
-            return [com, f"{pad}let {name} := {t}"]
+            return [com, self.assign_value(name, s.value, s, pad)]
         if isinstance(s, ast.If):
             t, ty = self.ex(s.test)
             if ty != "Bool":
                 _fail(s.test, "non-boolean test")
             out = [f"{pad}-- if {_unparse1(s.test)}:", f"{pad}if {t} then"]
-            body = self.block(s.body, ind + 1)
+            if tail:
+                if not s.orelse:
+                    _fail(s, "final `if` without `else`")
+                out += self.scoped(s.body, ind + 1, tail=True)
+                self.done = False
+                out.append(f"{pad}else do")
+                out += self.scoped(s.orelse, ind + 1, tail=True)
+                return out
+            body = self.scoped(s.body, ind + 1)
             out += body if any(not ln.strip().startswith("--") for ln in body) else body + [f"{pad}  pure ()"]
             if s.orelse:
                 out.append(f"{pad}else do")
-                out += self.block(s.orelse, ind + 1)
+                out += self.scoped(s.orelse, ind + 1)
             return out
+        if isinstance(s, ast.For):
+            if not top:
+                _fail(s, "loop inside a branch")
+            return self.for_loop(s, ind)
         _fail(s, "unsupported statement")
 
+    def assign_value(self, name, v, s, pad):
+        if isinstance(v, ast.List) and not v.elts:
+            if name not in self.locals:
+                _fail(s, "empty list whose element type is not declared (LOCALS)")
+            return self.assign_name(name, "[]", self.locals[name], s, pad, ann=self.locals[name])
+        t, ty = self.ex(v)
+        return self.assign_name(name, t, ty, s, pad)
+
+    # ---- `for i, x in enumerate(xs):` -> a body function over the loop-carried variables + pyForEnumerate ------
+    def for_loop(self, s, ind):
+        pad = "  " * ind
+        if s.orelse or not (isinstance(s.iter, ast.Call) and ast.unparse(s.iter.func) == "enumerate" and len(s.iter.args) == 1
+                            and not s.iter.keywords and isinstance(s.target, ast.Tuple) and len(s.target.elts) == 2
+                            and all(isinstance(x, ast.Name) for x in s.target.elts)):
+            _fail(s, "loop other than `for i, x in enumerate(xs):`")
+        xs, tx = self.pure(s.iter.args[0])
+        if tx != "VecNat":
+            _fail(s, "loop over something else than an integer array")
+        ivar, xvar = (x.id for x in s.target.elts)
+        if ivar in self.env or xvar in self.env:
+            _fail(s, "loop variable shadows a name")
+        # loop-carried variables: bound before the loop and assigned / appended to / item-assigned inside it
+        assigned = []
+        for n in ast.walk(ast.Module(body=s.body, type_ignores=[])):
+            names = []
+            if isinstance(n, ast.Assign):
+                for tg in n.targets:
+                    for x in (tg.elts if isinstance(tg, ast.Tuple) else [tg]):
+                        if isinstance(x, ast.Name):
+                            names.append(x.id)
+                        elif isinstance(x, (ast.Subscript, ast.Attribute)) and isinstance(x.value, ast.Name):
+                            names.append(x.value.id)
+            elif isinstance(n, ast.AugAssign):
+                _fail(n, "augmented assignment")
+            elif isinstance(n, ast.Call) and isinstance(n.func, ast.Attribute) and n.func.attr == "append" and isinstance(n.func.value, ast.Name):
+                names.append(n.func.value.id)
+            elif isinstance(n, (ast.For, ast.While, ast.Break, ast.Continue, ast.Return)):
+                _fail(n, "nested loop / break / continue / return inside the loop")
+            assigned += [x for x in names if x not in assigned]
+        state = [n for n in self.env if n in assigned]
+        if not state:
+            _fail(s, "loop without loop-carried variables")
+        used = {n.id for n in ast.walk(ast.Module(body=s.body, type_ignores=[])) if isinstance(n, ast.Name)}
+        if any(isinstance(n, ast.Attribute) and ast.unparse(n).startswith("self.") for n in ast.walk(ast.Module(body=s.body, type_ignores=[]))):
+            used.add("self")
+        free = [n for n in self.env if n in used and n not in state and self.env[n][1] != "Method" and "." not in n]
+        # the body as a function
+        sub = Tr.__new__(Tr)
+        sub.__dict__.update(self.__dict__)
+        sub.env = {n: self.env[n] for n in free + state}
+        sub.env.update({k: v for k, v in self.env.items() if v[1] == "Method"})
+        sub.env[ivar] = (ivar, "Nat")
+        sub.env[xvar] = (xvar, "Nat")
+        sub.ret = "Tup:" + ",".join(self.env[n][1] for n in state) if len(state) > 1 else self.env[state[0]][1]
+        sub.mut, sub.mut_declared, sub.scopes, sub.aux, sub.done = set(), set(), [set()], [], False
+        sub.body_stmts = s.body
+        sub.find_mutable(s.body)
+        lines = []
+        for n in sorted(sub.mut):
+            if n in sub.env:
+                lines.append(f"  let mut {n} := {n}")
+                sub.mut_declared.add(n)
+        sub_body = []
+        for st in s.body:
+            sub_body += sub.stmt(st, 1, False)
+        ret = ", ".join(state)
+        lines += sub_body + [f"  return ({ret})" if len(state) > 1 else f"  return {ret}"]
+        bname = f"{self.lean}_loop"
+        ps = (["(env : Env K)"] if self.uses_env else []) + (["(world : PresetWorld K)"] if self.uses_world else [])
+        ps += [f"({n} : {lean_type(self.env[n][1])})" for n in free + state] + [f"({ivar} : Nat)", f"({xvar} : Nat)"]
+        doc = (f"/-- the body of the loop `{_unparse1(s)}` of `AtomGrid.{self.pyname}` (atomgrid.py line {s.lineno}) as a function of the "
+               f"loop-carried variables `{ret}` -/")
+        self.aux += [doc, f"def {bname} " + " ".join(ps) + f" : Except Err ({lean_type(sub.ret)}) := do"] + lines + [""]
+        # the loop itself
+        call = bname + (" env" if self.uses_env else "") + (" world" if self.uses_world else "") + "".join(f" {n}" for n in free)
+        if len(state) == 1:
+            proj = ["st"]
+        else:
+            proj = [f"st.{'2.' * k}1" for k in range(len(state) - 1)] + [f"st.{'2.' * (len(state) - 2)}2"]
+        out = [f"{pad}-- {_unparse1(s)}",
+               f"{pad}let st' := (← pyForEnumerate {_atom(xs)} ({ret}) (fun st {ivar} {xvar} => {call} {' '.join(proj)} {ivar} {xvar}))"]
+        for n, pr in zip(state, proj):
+            out.append(self.assign_name(n, pr.replace("st", "st'", 1), self.env[n][1], s, pad))
+        return out
+
     # ---- the whole function ---------------------------------------------------------
-    def mutable_names(self):
-        """names (parameters or locals) that are assigned inside a branch"""
-        def walk(stmts, nested):
-            for s in stmts:
-                if isinstance(s, ast.Assign) and nested:
-                    for tg in s.targets:
-                        if isinstance(tg, ast.Name):
-                            if not (isinstance(s.value, ast.Constant) and s.value.value is None and tg.id not in self.env):
-                                self.mut.add(tg.id)
-                elif isinstance(s, ast.If):
-                    walk(s.body, True)
-                    walk(s.orelse, True)
-        walk(self.fn.body, False)
+    def find_mutable(self, stmts):
+        """names bound in an enclosing scope (parameters included) that are assigned inside a branch: `let mut`"""
+        def targets(st):
+            out = []
+            if isinstance(st, ast.Assign):
+                for tg in st.targets:
+                    for x in (tg.elts if isinstance(tg, ast.Tuple) else [tg]):
+                        if isinstance(x, ast.Name):
+                            if not (isinstance(st.value, ast.Constant) and st.value.value is None):
+                                out.append(x.id)
+                        elif isinstance(x, (ast.Subscript, ast.Attribute)) and isinstance(x.value, ast.Name) and x.value.id != "self":
+                            out.append(x.value.id)
+            elif isinstance(st, ast.Expr) and isinstance(st.value, ast.Call) and isinstance(st.value.func, ast.Attribute) \
+                    and st.value.func.attr == "append" and isinstance(st.value.func.value, ast.Name):
+                out.append(st.value.func.value.id)
+            return out
+
+        def walk(stmts, outer, nested):
+            here = set()
+            for st in stmts:
+                for n in targets(st):
+                    if nested and n in outer and n not in here:
+                        self.mut.add(n)
+                    else:
+                        here.add(n)
+                if isinstance(st, ast.If):
+                    walk(st.body, outer | here, True)
+                    walk(st.orelse, outer | here, True)
+        walk(stmts, set(self.env), False)
 
     def translate(self):
-        self.mutable_names()
-        ps = ["(env : Env K)"] if self.uses_env else []
-        ps += [f"({n} : {LEAN_TYPE[t]})" for n, t in self.params if t not in (None, "Method")]
-        head = f"def {self.lean} " + " ".join(ps) + f" : Except Err ({LEAN_TYPE[self.ret]}) := do"
+        self.find_mutable(self.fn.body)
+        ps = (["(env : Env K)"] if self.uses_env else []) + (["(world : PresetWorld K)"] if self.uses_world else [])
+        ps += ["(self : Grid K)"] if self.has_self else []
+        ps += [f"({n} : {lean_type(t)})" for n, t in self.params if t not in (None, "Method")]
+        head = f"def {self.lean} " + " ".join(ps) + f" : Except Err ({lean_type(self.ret)}) := do"
         lines = []
         for n in sorted(self.mut):
-            if n not in self.env:
-                raise Untranslatable(f"AtomGrid.{self.pyname}: `{n}` is first assigned inside a branch")
-            lines.append(f"  let mut {n} := {n}")
+            if n in self.env:
+                lines.append(f"  let mut {n} := {n}")
+                self.mut_declared.add(n)
         lines += self.block(self.fn.body, 1, top=True)
         if not self.done:
             if self.ret != "Unit":
                 raise Untranslatable(f"AtomGrid.{self.pyname}: no result produced")
         doc = f"/-- `AtomGrid.{self.pyname}` (atomgrid.py line {self.fn.lineno}) -/"
-        return [doc, head] + lines
+        return self.aux + [doc, head] + lines
+
+    def default_defs(self):
+        """the default value of every parameter as a definition"""
+        out = []
+        for n, t in self.params:
+            d = self.defaults[self.pyname].get(n)
+            if t is None or d is None:
+                continue
+            ty = "String" if t == "Method" else lean_type(t)
+            kparam = " (K : Type)" if "K" in ty.replace("(", " ").replace(")", " ").split() else ""
+            out += [f"/-- default of `{n}` in `AtomGrid.{self.pyname}`: `{_unparse1(d)}` -/",
+                    f"def {self.lean}_default_{n}{kparam} : {ty} := {self.arg(d, t)}", ""]
+        return out
+
+
+def _preset(c):
+    """a preset name as the constructor of `Gen.Presets.Preset` (that translator enumerates every name the source mentions)"""
+    v = c.value
+    if not (isinstance(v, str) and v.isidentifier() and v.isascii()):
+        _fail(c, "preset name that is not an identifier")
+    return f"Preset.{v}"
 
 
 def _atom(t):
@@ -688,17 +1173,28 @@ def translate():
             raise Untranslatable(f"AtomGrid.{name}: found {len(found)} definitions")
         fns[name] = found[0]
         defaults[name] = _check_signature(name, found[0])
-    parts = []
+    # the properties read through `self.<name>` must be the plain accessors the typing context takes them for
+    props = set()
+    for name, (attr, _, _) in SELF_PROPS.items():
+        found = [n for n in cls.body if isinstance(n, ast.FunctionDef) and n.name == name
+                 and [ast.unparse(d) for d in n.decorator_list] == ["property"]]
+        body = [x for x in found[0].body if not (isinstance(x, ast.Expr) and isinstance(x.value, ast.Constant))] if len(found) == 1 else []
+        if len(body) == 1 and isinstance(body[0], ast.Return) and body[0].value is not None and ast.unparse(body[0].value) == attr:
+            props.add(name)
+    parts, dflt = [], []
     for name in ORDER:
-        parts += Tr(name, fns[name], defaults).translate() + [""]
-    return "\n".join(parts)
+        tr = Tr(name, fns[name], defaults, frozenset(props))
+        parts += tr.translate() + [""]
+        dflt += tr.default_defs()
+    return "\n".join(parts + ["/-! ### default values of the parameters -/", ""] + dflt)
 
 
 def generate():
     text = HEADER.format(name="atomgrid", source="src/grid/atomgrid.py (AtomGrid.__init__, from_pruned, _input_type_check, "
-                                                 "_generate_degree_from_radius, _find_degrees_for_radial_points)")
+                                                 "_generate_degree_from_radius, _find_degrees_for_radial_points, get_shell_grid, "
+                                                 "_generate_atomic_grid, from_preset)")
     text += ("import GridVerif.Model.AtomGrid\n\nset_option linter.unusedVariables false\n\n"
-             "namespace GridVerif.Gen.AtomGrid\nopen GridVerif.AtomGrid\n\nsection\n"
+             "namespace GridVerif.Gen.AtomGrid\nopen GridVerif.AtomGrid GridVerif.Gen.Presets\n\nsection\n"
              "variable {K : Type} [Add K] [Sub K] [Mul K] [Div K] [NatCast K] [LT K] [LE K] [DecidableLT K] [DecidableLE K]\n\n")
     text += translate()
     text += "\nend\nend GridVerif.Gen.AtomGrid\n"
